@@ -329,10 +329,15 @@ def cases(draw, pool='lite', tame=True):
         else:
             lit = '"' + val.replace('\\', '\\\\').replace('"', '\\"') + '"'
         return {'dialect': 'mindsdb', 'sql': draw(st.sampled_from(KW_TEMPLATES)).replace('{v}', lit), 'origin': mode}
-    if mode == 'grammar':
+    if tame and draw(st.integers(0, 2)) == 0:
+        # a third of the derivations is wild again (keyword-spelled names, statements as sub-queries, ...): after the
+        #  printer repairs 144 000 wild cases produced nothing but the listed findings
+        tame = False
+        mode = 'wild-' + mode
+    if mode.endswith('grammar') and not mode.startswith(('mut', 'wild-mut')):
         toks = draw(gg.sentence(pool=pool, tame=tame))
     else:
-        base = draw(st.sampled_from(_TOK[d])) if mode == 'mut-corpus' else draw(gg.sentence(pool=pool, tame=tame))
+        base = draw(st.sampled_from(_TOK[d])) if mode.endswith('mut-corpus') else draw(gg.sentence(pool=pool, tame=tame))
         kind, toks = draw(mutate.mutation(base, gg.all_lexemes(pool)))
     return {'dialect': d, 'sql': ' '.join(toks), 'origin': mode}
 
